@@ -174,5 +174,8 @@ class Check(PropertyCheck):
         texts += [gen.zoo(self.rng) for _ in range(n // 3)]
         return self.oracle(texts)
 
+    def oracle_on_texts(self, texts):
+        return self.oracle(texts)
+
     def replay_case(self, case):
         return self.oracle([case["input"]])
